@@ -70,12 +70,34 @@ class Impl:
                 sub = self.Subroutine(instructions=instrs, netqasm_version=(v0, v1), app_id=app)
             raw = bytes(sub)
         except Exception as e:  # any refusal to encode
-            return dict(bytes=None, dec=None, oracle_ok=None, err=type(e).__name__)
+            # a refusal must be stable: encoding the same object again must refuse again
+            # (a half-built cache left behind by the first attempt would show here)
+            try:
+                raw2 = bytes(sub)
+            except Exception:
+                return dict(bytes=None, dec=None, oracle_ok=None, err=type(e).__name__)
+            flav = self.t["flavours"][fname]["flavour"]
+            try:
+                back = self.deserialize(raw2, flavour=flav)
+                dec = (back.netqasm_version[0], back.netqasm_version[1], back.app_id,
+                       [self.view_instr(i) for i in back.instructions])
+            except Exception:
+                dec = None
+            return dict(bytes=list(raw2), dec=dec, oracle_ok=False, err="second-encoding-accepted-after-" + type(e).__name__)
         flav = self.t["flavours"][fname]["flavour"]
         try:
             back = self.deserialize(raw, flavour=flav)
         except Exception as e:
             return dict(bytes=list(raw), dec=None, oracle_ok=False, err="decode:" + type(e).__name__)
+        # a long-lived Deserializer object (one per flavour, reused for every buffer, also after failed
+        # decodes) must read the same thing as a fresh one
+        try:
+            back_p = self.persistent_deserializer(fname).deserialize_subroutine(raw)
+            same = (list(back_p.instructions) == list(back.instructions) and back_p.app_id == back.app_id)
+        except Exception as e:  # noqa
+            same = False
+        if not same:
+            return dict(bytes=list(raw), dec=None, oracle_ok=False, err="persistent Deserializer object reads differently")
         dec = (back.netqasm_version[0], back.netqasm_version[1], back.app_id,
                [self.view_instr(i) for i in back.instructions])
         ok = (list(back.instructions) == instrs and tuple(back.netqasm_version) == (v0, v1) and back.app_id == app)
@@ -148,8 +170,20 @@ class Impl:
                     return pos
         raise IndexError(i)
 
+    def persistent_deserializer(self, fname):
+        from netqasm.lang.parsing.binary import Deserializer
+        if not hasattr(self, "_pdes"):
+            self._pdes = {}
+        if fname not in self._pdes:
+            self._pdes[fname] = Deserializer(self.t["flavours"][fname]["flavour"])
+        return self._pdes[fname]
+
     def run_dcase(self, fname, raw):
         flav = self.t["flavours"][fname]["flavour"]
+        try:  # feed the long-lived object too (its result is not compared here: a failure must not poison it)
+            self.persistent_deserializer(fname).deserialize_subroutine(bytes(raw))
+        except Exception:
+            pass
         try:
             back = self.deserialize(bytes(raw), flavour=flav)
             return (back.netqasm_version[0], back.netqasm_version[1], back.app_id,
